@@ -220,10 +220,39 @@ let c13 (payload : string) : string =
   | "ch" :: _ -> c11 payload
   | _ -> "bad"
 
+(* ---------------- C18: circuit breaker ---------------- *)
+let c18 (payload : string) : string =
+  match split_on ' ' payload with
+  | "br" :: thr :: win :: evs ->
+    let cfg = { threshold = z_of_dec thr; window = z_of_dec win } in
+    let tr = List.map (fun e ->
+      match String.split_on_char '@' e with
+      | ["R"; t] -> EReady (z_of_dec t)
+      | ["F"; t] -> EFail (z_of_dec t)
+      | ["S"; t] -> ESuccess (z_of_dec t)
+      | ["C"; rest] -> (match String.split_on_char ':' rest with
+          | [t; ok; t'] -> ECall (z_of_dec t, ok = "ok", z_of_dec t')
+          | _ -> failwith "call")
+      | _ -> failwith "event") evs in
+    let (_, outs) = b_run cfg b_init tr in
+    String.concat " " (List.map (fun o -> match o with
+      | OReady true -> "r1" | OReady false -> "r0"
+      | OInvoked true -> "inv-ok" | OInvoked false -> "inv-fail"
+      | ORefused -> "refused" | ONone -> "-") outs)
+  | "xb" :: thr :: win :: evs ->
+    let cfg = { threshold = z_of_dec thr; window = z_of_dec win } in
+    let tr = List.map (fun e -> match String.split_on_char ':' e with
+      | [t; ok] -> (z_of_dec t, ok = "ok") | _ -> failwith "dial") evs in
+    let (_, outs) = xb_run cfg { xb_exists = false; xb_b = b_init } tr in
+    String.concat " " (List.map (fun o -> match o with
+      | Dialed true -> "dial-ok" | Dialed false -> "dial-fail" | DialSkipped -> "skip") outs)
+  | _ -> "bad"
+
 let () =
   let prop = Sys.argv.(1) in
   let f = match prop with
     | "C12" -> c12
+    | "C18" -> c18
     | "C11" -> c11
     | "C13" -> c13
     | "C01" -> c01
